@@ -222,7 +222,9 @@ Inductive frame :=
 (* receive loop *)
 Inductive rpc :=
 | RIdle
-| RConfirm (s : nat) (x : N) (tell : bool)   (* between popInflight and addActiveSub *)
+| RConfirm (s : nat) (x : N) (tell : bool) (g : N)
+     (* between popInflight and addActiveSub; g = s.confirmedGen, the connection generation popInflight saw
+        (kept here rather than in the sub record: the receive loop is sequential, nothing else reads it) *)
 | RDeliver (k : nat) (r : resp)              (* between popInflight and deliverCallResponse *)
 | RNotify (s : nat) (x : N) (tag : N).       (* after getActiveSub, at the select that hands it over *)
 
@@ -262,6 +264,7 @@ Record wstate := {
   w_substraddle : bool;             (* ghost: a reconnect began while a Subscribe was between
                                        addConfiguredSub and the completion of its send *)
   w_subs_seen : list nat;           (* ghost: every sub handle ever created *)
+  w_gen : N;                        (* connGeneration: number of times the active state was cleared *)
 }.
 
 Definition winit : wstate :=
@@ -269,7 +272,7 @@ Definition winit : wstate :=
      w_sub := fun _ => sub0; w_chan := fun _ => None;
      w_cpc := fun _ => CNew; w_spc := fun _ => SNew; w_upc := fun _ => UNew;
      w_rpc := RIdle; w_hpc := HIdle; w_log := []; w_panic := false;
-     w_straddle := false; w_substraddle := false; w_subs_seen := [] |}.
+     w_straddle := false; w_substraddle := false; w_subs_seen := []; w_gen := 0 |}.
 
 Inductive wev :=
 (* CallRPC k *)
@@ -290,58 +293,58 @@ Definition set_sub (w : wstate) (s : nat) (o : sub) : wstate :=
   {| w_ctr := w_ctr w; w_calls := w_calls w; w_conf := w_conf w; w_pend := w_pend w; w_act := w_act w;
      w_sub := upd (w_sub w) s o; w_chan := w_chan w; w_cpc := w_cpc w; w_spc := w_spc w; w_upc := w_upc w;
      w_rpc := w_rpc w; w_hpc := w_hpc w; w_log := w_log w; w_panic := w_panic w;
-     w_straddle := w_straddle w; w_substraddle := w_substraddle w; w_subs_seen := w_subs_seen w |}.
+     w_straddle := w_straddle w; w_substraddle := w_substraddle w; w_subs_seen := w_subs_seen w; w_gen := w_gen w |}.
 Definition set_tables (w : wstate) (ctr : N) (calls : list (N * nat)) (conf : list nat)
   (pend act : list (N * nat)) : wstate :=
   {| w_ctr := ctr; w_calls := calls; w_conf := conf; w_pend := pend; w_act := act;
      w_sub := w_sub w; w_chan := w_chan w; w_cpc := w_cpc w; w_spc := w_spc w; w_upc := w_upc w;
      w_rpc := w_rpc w; w_hpc := w_hpc w; w_log := w_log w; w_panic := w_panic w;
-     w_straddle := w_straddle w; w_substraddle := w_substraddle w; w_subs_seen := w_subs_seen w |}.
+     w_straddle := w_straddle w; w_substraddle := w_substraddle w; w_subs_seen := w_subs_seen w; w_gen := w_gen w |}.
 Definition set_chan (w : wstate) (k : nat) (v : option resp) : wstate :=
   {| w_ctr := w_ctr w; w_calls := w_calls w; w_conf := w_conf w; w_pend := w_pend w; w_act := w_act w;
      w_sub := w_sub w; w_chan := upd (w_chan w) k v; w_cpc := w_cpc w; w_spc := w_spc w; w_upc := w_upc w;
      w_rpc := w_rpc w; w_hpc := w_hpc w; w_log := w_log w; w_panic := w_panic w;
-     w_straddle := w_straddle w; w_substraddle := w_substraddle w; w_subs_seen := w_subs_seen w |}.
+     w_straddle := w_straddle w; w_substraddle := w_substraddle w; w_subs_seen := w_subs_seen w; w_gen := w_gen w |}.
 Definition set_cpc (w : wstate) (k : nat) (p : cpc) : wstate :=
   {| w_ctr := w_ctr w; w_calls := w_calls w; w_conf := w_conf w; w_pend := w_pend w; w_act := w_act w;
      w_sub := w_sub w; w_chan := w_chan w; w_cpc := upd (w_cpc w) k p; w_spc := w_spc w; w_upc := w_upc w;
      w_rpc := w_rpc w; w_hpc := w_hpc w; w_log := w_log w; w_panic := w_panic w;
-     w_straddle := w_straddle w; w_substraddle := w_substraddle w; w_subs_seen := w_subs_seen w |}.
+     w_straddle := w_straddle w; w_substraddle := w_substraddle w; w_subs_seen := w_subs_seen w; w_gen := w_gen w |}.
 Definition set_spc (w : wstate) (s : nat) (p : spc) : wstate :=
   {| w_ctr := w_ctr w; w_calls := w_calls w; w_conf := w_conf w; w_pend := w_pend w; w_act := w_act w;
      w_sub := w_sub w; w_chan := w_chan w; w_cpc := w_cpc w; w_spc := upd (w_spc w) s p; w_upc := w_upc w;
      w_rpc := w_rpc w; w_hpc := w_hpc w; w_log := w_log w; w_panic := w_panic w;
-     w_straddle := w_straddle w; w_substraddle := w_substraddle w; w_subs_seen := w_subs_seen w |}.
+     w_straddle := w_straddle w; w_substraddle := w_substraddle w; w_subs_seen := w_subs_seen w; w_gen := w_gen w |}.
 Definition set_upc (w : wstate) (s : nat) (p : upc) : wstate :=
   {| w_ctr := w_ctr w; w_calls := w_calls w; w_conf := w_conf w; w_pend := w_pend w; w_act := w_act w;
      w_sub := w_sub w; w_chan := w_chan w; w_cpc := w_cpc w; w_spc := w_spc w; w_upc := upd (w_upc w) s p;
      w_rpc := w_rpc w; w_hpc := w_hpc w; w_log := w_log w; w_panic := w_panic w;
-     w_straddle := w_straddle w; w_substraddle := w_substraddle w; w_subs_seen := w_subs_seen w |}.
+     w_straddle := w_straddle w; w_substraddle := w_substraddle w; w_subs_seen := w_subs_seen w; w_gen := w_gen w |}.
 Definition set_rpc (w : wstate) (p : rpc) : wstate :=
   {| w_ctr := w_ctr w; w_calls := w_calls w; w_conf := w_conf w; w_pend := w_pend w; w_act := w_act w;
      w_sub := w_sub w; w_chan := w_chan w; w_cpc := w_cpc w; w_spc := w_spc w; w_upc := w_upc w;
      w_rpc := p; w_hpc := w_hpc w; w_log := w_log w; w_panic := w_panic w;
-     w_straddle := w_straddle w; w_substraddle := w_substraddle w; w_subs_seen := w_subs_seen w |}.
+     w_straddle := w_straddle w; w_substraddle := w_substraddle w; w_subs_seen := w_subs_seen w; w_gen := w_gen w |}.
 Definition set_hpc (w : wstate) (p : rcpc) : wstate :=
   {| w_ctr := w_ctr w; w_calls := w_calls w; w_conf := w_conf w; w_pend := w_pend w; w_act := w_act w;
      w_sub := w_sub w; w_chan := w_chan w; w_cpc := w_cpc w; w_spc := w_spc w; w_upc := w_upc w;
      w_rpc := w_rpc w; w_hpc := p; w_log := w_log w; w_panic := w_panic w;
-     w_straddle := w_straddle w; w_substraddle := w_substraddle w; w_subs_seen := w_subs_seen w |}.
+     w_straddle := w_straddle w; w_substraddle := w_substraddle w; w_subs_seen := w_subs_seen w; w_gen := w_gen w |}.
 Definition add_log (w : wstate) (o : obs) : wstate :=
   {| w_ctr := w_ctr w; w_calls := w_calls w; w_conf := w_conf w; w_pend := w_pend w; w_act := w_act w;
      w_sub := w_sub w; w_chan := w_chan w; w_cpc := w_cpc w; w_spc := w_spc w; w_upc := w_upc w;
      w_rpc := w_rpc w; w_hpc := w_hpc w; w_log := o :: w_log w; w_panic := w_panic w;
-     w_straddle := w_straddle w; w_substraddle := w_substraddle w; w_subs_seen := w_subs_seen w |}.
+     w_straddle := w_straddle w; w_substraddle := w_substraddle w; w_subs_seen := w_subs_seen w; w_gen := w_gen w |}.
 Definition set_panic (w : wstate) : wstate :=
   {| w_ctr := w_ctr w; w_calls := w_calls w; w_conf := w_conf w; w_pend := w_pend w; w_act := w_act w;
      w_sub := w_sub w; w_chan := w_chan w; w_cpc := w_cpc w; w_spc := w_spc w; w_upc := w_upc w;
      w_rpc := w_rpc w; w_hpc := w_hpc w; w_log := w_log w; w_panic := true;
-     w_straddle := w_straddle w; w_substraddle := w_substraddle w; w_subs_seen := w_subs_seen w |}.
+     w_straddle := w_straddle w; w_substraddle := w_substraddle w; w_subs_seen := w_subs_seen w; w_gen := w_gen w |}.
 Definition set_flags (w : wstate) (a b : bool) (seen : list nat) : wstate :=
   {| w_ctr := w_ctr w; w_calls := w_calls w; w_conf := w_conf w; w_pend := w_pend w; w_act := w_act w;
      w_sub := w_sub w; w_chan := w_chan w; w_cpc := w_cpc w; w_spc := w_spc w; w_upc := w_upc w;
      w_rpc := w_rpc w; w_hpc := w_hpc w; w_log := w_log w; w_panic := w_panic w;
-     w_straddle := a; w_substraddle := b; w_subs_seen := seen |}.
+     w_straddle := a; w_substraddle := b; w_subs_seen := seen; w_gen := w_gen w |}.
 
 Definition sub_set_pend (o : sub) (p : option N) : sub :=
   {| s_pend := p; s_cur := s_cur o; s_new := s_new o; s_respq := s_respq o; s_cancel := s_cancel o; s_closed := s_closed o |}.
@@ -407,7 +410,7 @@ Definition removeConfiguredSub (w : wstate) (s : nat) : wstate :=
 Definition removeInflightRequest (w : wstate) (id : N) : wstate :=
   set_tables w (w_ctr w) (adel id (w_calls w)) (w_conf w) (w_pend w) (w_act w).
 
-(* clearActiveReturnConfiguredSubs *)
+(* clearActiveReturnConfiguredSubs (connGeneration++) *)
 Definition clear_subs (f : nat -> sub) (conf : list nat) : nat -> sub :=
   fun s => if nmem s conf then sub_set_cur (sub_set_pend (f s) None) None else f s.
 Definition clearActiveReturnConfiguredSubs (w : wstate) : wstate * list (N * nat) * list nat :=
@@ -415,7 +418,8 @@ Definition clearActiveReturnConfiguredSubs (w : wstate) : wstate * list (N * nat
   ({| w_ctr := w_ctr w1; w_calls := w_calls w1; w_conf := w_conf w1; w_pend := w_pend w1; w_act := w_act w1;
       w_sub := clear_subs (w_sub w) (w_conf w); w_chan := w_chan w1; w_cpc := w_cpc w1; w_spc := w_spc w1;
       w_upc := w_upc w1; w_rpc := w_rpc w1; w_hpc := w_hpc w1; w_log := w_log w1; w_panic := w_panic w1;
-      w_straddle := w_straddle w1; w_substraddle := w_substraddle w1; w_subs_seen := w_subs_seen w1 |},
+      w_straddle := w_straddle w1; w_substraddle := w_substraddle w1; w_subs_seen := w_subs_seen w1;
+      w_gen := (w_gen w + 1)%N |},
    w_calls w, w_conf w).
 
 (* deliverCallResponse: non-blocking send into the capacity-1 channel *)
@@ -560,7 +564,7 @@ Definition wstep (w : wstate) (e : wev) : option wstate :=
                   let o := w_sub w1 s in
                   let tell := s_new o in
                   match iserr, res with
-                  | false, Some x => Some (set_rpc (set_sub w1 s (sub_set_new o false (s_respq o))) (RConfirm s x tell))
+                  | false, Some x => Some (set_rpc (set_sub w1 s (sub_set_new o false (s_respq o))) (RConfirm s x tell (w_gen w1)))
                   | _, _ => Some (set_sub w1 s (sub_set_new o false (if tell then Some false else s_respq o)))
                   end
               | PCall k => Some (set_rpc w1 (RDeliver k (RespFrame i iserr res)))
@@ -571,8 +575,9 @@ Definition wstep (w : wstate) (e : wev) : option wstate :=
       end
   | ERAddActive =>
       match w_rpc w with
-      | RConfirm s x tell =>
-          let w1 := addActiveSub w s x in
+      | RConfirm s x tell g =>
+          (* addActiveSub refuses a confirmation matched on an earlier connection *)
+          let w1 := if (g =? w_gen w)%N then addActiveSub w s x else w in
           let o := w_sub w1 s in
           Some (set_rpc (if tell then set_sub w1 s (sub_set_new o (s_new o) (Some true)) else w1) RIdle)
       | _ => None
